@@ -7,7 +7,13 @@ Import ListNotations.
 Inductive akind := ARead | AWrite.
 
 Record access := {
-  a_loc : string;     (* package-level variable, "pkg.name" *)
+  a_loc : string;     (* a shared location (rules: translators/access/main.go):
+                         "pkg.name"          a package-level variable
+                         "*pkg.name"         the object a package-level variable points to, once a helper hands
+                                             that object out to its callers and its type has mutating methods
+                         "pkg.Type.field"    a field of a shared receiver type (the store), one location per type
+                         "<location>[*]"     the values stored in a synchronised container at <location>, when a
+                                             helper stores a value of a type with mutating methods there *)
   a_kind : akind;
   a_sync : bool;      (* sync.Pool / sync.Once / atomic / mutex guarded *)
   a_via : string      (* function in which the access occurs (diagnostics) *)
